@@ -211,6 +211,8 @@ def _run(case, res):
         if not is_rec:
             if not mutated and obj.dirty:
                 fail("dirty-flag", f"after {desc}: dirty is True although no mutator was called")
+        if not os.path.exists(src):
+            fail("source-modified", f"after {desc}: the source file {os.path.basename(src)} is gone")
         st = (sha(src), os.stat(src).st_mtime_ns, os.stat(src).st_size)
         if st != st0:
             fail("source-modified", f"after {desc}: the source file changed on disk")
